@@ -803,6 +803,10 @@ func runCheck(prop, tier string, opt options) int {
 		ev, n := spec.Extra(l)
 		states += n
 		for i, v := range ev {
+			if strings.HasPrefix(v, "INCONCLUSIVE:") {
+				inconclusive = append(inconclusive, strings.TrimSpace(strings.TrimPrefix(v, "INCONCLUSIVE:")))
+				continue
+			}
 			violations++
 			path := filepath.Join(outDir, "replays", prop, fmt.Sprintf("extra-%d.json", i))
 			b, _ := json.MarshalIndent(map[string]string{"property": prop, "kind": "concrete", "detail": v}, "", " ")
